@@ -134,6 +134,60 @@ def _job(a):
             "c3": cs[2] if rc == 0 else [], "cfg_text": cfgt, "seed": seed, "tab": extra["tab"]}
 
 
+# ---- statement trees with unbraced bodies (Nest.tla): one token group per line
+NEST_TXT = {"I": "if (a > %d)", "E": "else", "L": "while (a < %d)", "D": "do", "W": "while (a < %d);", "T": "try", "C": "catch (%s e%d)", "F": "finally",
+            "{": "{", "}": "}", "S": "a = a + %d;"}
+NEST_EXT = {"C": ".c", "CPP": ".cpp", "JAVA": ".java", "CS": ".cs"}
+
+
+def nest_render(lines, lang, rng, comments=False):
+    out = []
+    head = {"C": ["void f(int a)", "{"], "CPP": ["void f(int a)", "{"], "JAVA": ["class K", "{", "void f(int a)", "{"], "CS": ["class K", "{", "void f(int a)", "{"]}[lang]
+    tail = ["}"] * (len(head) // 2)
+    n = 0
+    for ln in head:
+        out.append(ln)
+    for ln in lines:
+        n += 1
+        t = NEST_TXT[ln["t"]]
+        if ln["t"] == "C":
+            t = t % ("int" if lang == "CPP" else "Exception", n)
+        elif "%d" in t:
+            t = t % n
+        if comments and rng.random() < 0.4:
+            t += rng.choice([" // c%d", " /* c%d */"]) % n
+        out.append(rng.choice(["", " ", "\t", "      ", "\t\t\t", "  \t "]) + t)
+    out += tail
+    return "\n".join(out) + "\n", len(head), len(tail)
+
+
+def _nest_job(a):
+    unc, tmp, i, lines, lang, ic, seed, ei = a
+    cfg = os.path.join(tmp, "n%d.cfg" % i)
+    obs.write(cfg, "indent_columns=%d\nindent_with_tabs=0\nindent_class=true\nindent_else_if=%s\n" % (ic, "true" if ei else "false"))
+    cs = []
+    rc = 0
+    nh = nt = 0
+    for r in range(3):
+        text, nh, nt = nest_render(lines, lang, random.Random(seed * 3 + r), comments=(r == 2))
+        src = os.path.join(tmp, "n%d_%d%s" % (i, r, NEST_EXT[lang]))
+        obs.write(src, text)
+        rc_, so, se = sh([unc, "-c", cfg, "-q", "-l", lang, "-f", src], cwd=tmp, timeout=20)
+        os.unlink(src)
+        if rc_ != 0:
+            rc = rc_
+            break
+        c = columns(obs.decode(so), 8)
+        if len(c) != len(lines) + nh + nt:
+            rc = 97
+            break
+        cs.append(c[nh:len(c) - nt])
+    os.unlink(cfg)
+    base = 1 + ic * (nh // 2)
+    return {"id": "nest|%d" % i, "rc": rc, "lines": lines, "ic": ic, "base": base, "lang": lang, "seed": seed, "ei": ei,
+            "cols": cs[0] if rc == 0 else [], "cols2": (cs[1] if cs[1] == cs[2] else cs[2]) if rc == 0 else []}
+
+
 def run(ctx):
     quick = ctx.tier == "quick"
     unc = ctx.unc()
@@ -218,7 +272,50 @@ def run(ctx):
                     {"kind": "c18", "prog": e["prog"], "cfg_text": e["cfg_text"], "seed": e["seed"], "tab": e["tab"], "o": e["o"]})
             for dn in rep["drift"]:
                 ctx.drift.append({"module": "Indent", "kind": dn, "prog": e["prog"], "o": e["o"], "observed": e["c1"], "expected": rep.get("expected")})
-    ctx.cov["distinct_nontrivial"] = len({(tuple(e["prog"]), json.dumps(e["o"], sort_keys=True)) for e in ok if len(e["prog"]) >= 6})
+    # ---- unbraced bodies: statement trees from Nest.tla
+    r = tlc_retry("Nest", "Nest", workers=4, timeout=600)
+    ctx.add_tlc(r)
+    if r.error:
+        ctx.error("Nest: " + r.error)
+    elif r.violation:
+        ctx.model_violation("Nest", "Nest", r)
+    shutil.copy(os.path.join(SPEC, "Nest.tla"), d)
+    open(os.path.join(d, "NestGen.cfg"), "w").write("SPECIFICATION Spec\nCONSTANTS\n  Depth = %d\n  WithTry = TRUE\n  Emit = TRUE\nINVARIANTS EmitLines\nCHECK_DEADLOCK FALSE\n" % 2)
+    rn = tlc_retry("Nest", "NestGen", cwd=d, workers=1, timeout=1800)
+    if rn.error:
+        ctx.error("NestGen: " + rn.error)
+    trees = [(e["lines"], False) for e in rn.emitted] + [(e["lines_ei"], True) for e in rn.emitted if e["lines_ei"] != e["lines"]]
+    ctx.cov["statement_trees_from_tlc"] = len(trees)
+    njobs = []
+    for ti, (lines, ei) in enumerate(trees):
+        has_try = any(x["t"] == "T" for x in lines)
+        has_fin = any(x["t"] == "F" for x in lines)
+        langs = ["JAVA", "CS"] if has_fin else (["CPP", "JAVA", "CS"] if has_try else ["C", "CPP", "JAVA", "CS"])
+        for lang in (langs if not quick else [langs[ti % len(langs)]]):
+            njobs.append((unc, tmp, len(njobs), lines, lang, ctx.rng.choice([2, 3, 4, 8]), ctx.rng.randrange(1 << 30), ei))
+    nevs = pmap_proc(_nest_job, njobs, nproc=14)
+    ctx.cov["evaluations"] += len(nevs)
+    nok = [e for e in nevs if e["rc"] == 0]
+    ctx.cov["tree_runs_comparable"] = len(nok)
+    ctx.cov["tree_runs_rebroken_or_refused"] = len(nevs) - len(nok)
+    tp2 = os.path.join(ctx.work.path, "c18nest.ndjson")
+    write_ndjson(tp2, [{k: v for k, v in e.items() if k not in ("seed",)} for e in nok])
+    rt2 = tlc_retry("NestTrace", "NestTrace", env={"TRACE": tp2}, workers=1, timeout=3000, xmx="8g")
+    if rt2.error:
+        ctx.error("NestTrace: " + rt2.error)
+    else:
+        if rt2.violation and rt2.violation[0] == "postcondition":
+            ctx.error("NestTrace: trace not consumed to the end")
+        ctx.cov["traces_validated_against_impl"] += len(nok)
+        byid2 = {e["id"]: e for e in nok}
+        for rep in rt2.emitted:
+            e = byid2[rep["id"]]
+            shape = " ".join(x["t"] for x in e["lines"])
+            for b in rep["bad"]:
+                ctx.violation("%s|nest|%s|%s" % (b, shape, e["lang"]), "%s violated: statement tree '%s' (%s, indent_columns=%d): columns %s (with comments %s), by nesting %s" % (
+                    b, shape, e["lang"], e["ic"], e["cols"], e["cols2"], rep.get("expected")),
+                    {"kind": "c18nest", "lines": e["lines"], "lang": e["lang"], "ic": e["ic"], "seed": e["seed"], "ei": e["ei"]})
+    ctx.cov["distinct_nontrivial"] = len({(tuple(e["prog"]), json.dumps(e["o"], sort_keys=True)) for e in ok if len(e["prog"]) >= 6}) + len(nok)
     ctx.cov["rule"] = ("Indent.tla: every derivation of the block grammar up to %d lines / depth %d is generated by TLC (and the closed form is shown "
                        "to satisfy the three structural predicates on each); each program is rendered twice with different seeded original "
                        "indentation and formatted under seeded (indent_columns 1..8, indent_namespace/class/extern, indent_switch_case, "
